@@ -587,7 +587,9 @@ class NAryFunctionRelation(AbstractBaseRelation, SimpleRepr):
             else:
                 slice_f = functools.partial(self._f, **slicing_dict)
 
-            return NAryFunctionRelation(slice_f, remaining_vars, name=self.name)
+            return NAryFunctionRelation(
+                slice_f, remaining_vars, name=self.name, f_kwargs=self._f_kwargs
+            )
 
     def set_value_for_assignment(self, assignment, relation_value):
         raise NotImplementedError(
